@@ -117,7 +117,12 @@ func executeCompaction(db *DB) (compactionMetadata *proto.CompactionMetadata, er
 		}
 	}()
 
+	// tombstones can only be dropped when the oldest table takes part in the compaction. Otherwise, an older table that
+	// is not compacted may still hold a value for that key, which would become readable again without the tombstone.
 	reduceFunc := sstables.ScanReduceLatestWinsSkipTombstones
+	if !compactionAction.includesOldestTable {
+		reduceFunc = scanReduceLatestWinsKeepTombstones
+	}
 	err = sstables.NewSSTableMerger(db.cmp).MergeCompact(iterators, writer, reduceFunc)
 	if err != nil {
 		return nil, err
@@ -145,6 +150,15 @@ func executeCompaction(db *DB) (compactionMetadata *proto.CompactionMetadata, er
 	log.Printf("done compacting %d sstables in %v. Path: [%s]\n", len(paths), time.Since(start), writeFolder)
 
 	return compactionMetadata, nil
+}
+
+// scanReduceLatestWinsKeepTombstones is sstables.ScanReduceLatestWins, but it retains a tombstone as an empty value.
+func scanReduceLatestWinsKeepTombstones(key []byte, values [][]byte, context []int) ([]byte, []byte) {
+	key, val := sstables.ScanReduceLatestWins(key, values, context)
+	if len(val) == 0 {
+		return key, []byte{}
+	}
+	return key, val
 }
 
 func saveCompactionMetadata(writeFolder string, compactionMetadata *proto.CompactionMetadata) (err error) {
